@@ -148,6 +148,7 @@ def generate(run_seed, tier):
     nfiles = wl.randint(1, 3)
     paths = wl.sample(PATHS, nfiles)
     files, classes, exact_for = {}, {}, {}
+    directed = set()
     enabled_classes = wl.sample(CONTENT_CLASSES, wl.randint(2, 5))
     if wl.random() < (0.04 if tier == "quick" else 0.08):
         enabled_classes = [wl.choice(HUGE_CLASSES)]
@@ -219,6 +220,21 @@ def generate(run_seed, tier):
                 ops.append({"op": "call", "method": m, "pattern": pid, "path": path, "kw": kw,
                             "faults": faults_for()})
         tasks.append(ops)
+    # directed history "read, rewrite in place with the same size at the same instant, read again" - the case every
+    # stat-validated cache gets wrong; always used for the block-sized files, sometimes for the others
+    for p in paths:
+        big = len(files[p][0]) >= 2 * 60000
+        if (big and wl.random() < 0.7) or wl.random() < 0.04:
+            v0 = bytes.fromhex(files[p][0])
+            files[p] = [files[p][0], same_length_variant(wl, v0).hex()]
+            pid = wl.choice(sorted(patterns))
+            m1, m2 = wl.choice(GETTERS + OTHERS), wl.choice(GETTERS + OTHERS)
+            seq = [{"op": "call", "method": m1, "pattern": pid, "path": p, "kw": kw_for(wl, m1, allow_bad=False), "faults": []},
+                   {"op": "fs_write", "path": p, "version": 1},
+                   {"op": "call", "method": m2, "pattern": wl.choice(sorted(patterns)), "path": p, "kw": kw_for(wl, m2, allow_bad=False),
+                    "faults": []}]
+            tasks.append(seq)
+            directed.add(len(tasks) - 1)
     # a file that is one whole match of a pattern: ask that pattern about it (whole-text matches are where prefix /
     # block shortcuts go wrong)
     for p, pid in sorted(exact_for.items()):
@@ -227,14 +243,19 @@ def generate(run_seed, tier):
             tasks[t].insert(wl.randint(0, len(tasks[t])), {"op": "call", "method": m, "pattern": pid, "path": p, "kw": {}, "faults": []})
     # writer task
     wops = []
+    directed_paths = {ops[1]["path"] for i, ops in enumerate(tasks) if i in directed}
     for p in paths:
+        if p in directed_paths:
+            continue
         for v in range(1, len(files[p])):
             wops.append({"op": "fs_write", "path": p, "version": v})
     if wops:
         wl.shuffle(wops)
         tasks.append(wops)
     dt_rate = sc.choice([0.0, 0.2, 0.6])
-    for ops in tasks:
+    for ti, ops in enumerate(tasks):
+        if ti in directed:
+            continue                       # same instant: mtime does not move
         for op in ops:
             if sc.random() < dt_rate:
                 op["dt"] = sc.choice([0.001, 0.2, 0.5, 1.0, 3.0, 60.0])
@@ -660,7 +681,8 @@ def shrink_candidates(plan):
                 continue
             n = len(text)
             chunk = max(1, n // 2)
-            while chunk >= 1 and n > 0:
+            floor = max(1, n // 64)              # big files: coarse cuts only (each candidate is a full re-execution)
+            while chunk >= floor and n > 0:
                 i = 0
                 while i < n:
                     cand = text[:i] + text[i + chunk:]
@@ -668,7 +690,7 @@ def shrink_candidates(plan):
                     q["world"]["files"][p][vi] = cand.encode("utf-8").hex()
                     yield q
                     i += chunk
-                if chunk == 1:
+                if chunk == 1 or chunk // 2 < floor:
                     break
                 chunk //= 2
     for ti, ops in enumerate(plan["tasks"]):
